@@ -6,6 +6,7 @@ import (
 	"strings"
 
 	"verifharness/dyn"
+	"verifharness/emit"
 	"verifharness/gen"
 	"verifharness/val"
 )
@@ -551,7 +552,36 @@ func driveC04(o opts) error {
 	if o.tier == "thorough" {
 		p.ncases, p.ntxn = 4000, 14
 	}
-	return runTxnHistories(o, p)
+	if err := runTxnHistories(o, p); err != nil {
+		return err
+	}
+	return c04Witnesses(o)
+}
+
+// c04Witnesses replays the witness of the recorded C04 finding (class 31): a weak reference held in an immutable
+// column cannot be pruned, so the row it points to can never be deleted.
+func c04Witnesses(o opts) error {
+	sc := dyn.Schema{Name: "C04w", Tables: []dyn.Table{
+		{Name: "R", IsRoot: true, Cols: []val.Col{{Name: "name", K: 'a', KT: 's'},
+			{Name: "w", K: 's', KT: 'u', Max: -1, RefTable: "A", RefType: "weak", Immutable: true}}},
+		{Name: "A", IsRoot: true, Cols: []val.Col{{Name: "name", K: 'a', KT: 's'}}},
+	}}
+	lab, err := newTxnLab(sc)
+	if err != nil {
+		return err
+	}
+	a, r := gen.UUIDn(1), gen.UUIDn(2)
+	known := map[string]int{}
+	if ob := lab.run([]TOp{
+		{Kind: "insert", Table: "A", UUID: a, Row: map[string]val.Val{"name": val.VA(val.Str("target"))}},
+		{Kind: "insert", Table: "R", UUID: r, Row: map[string]val.Val{"name": val.VA(val.Str("holder")), "w": val.VS(val.Uuid(a))}},
+	}); ob.Committed {
+		ob2 := lab.run([]TOp{{Kind: "delete", Table: "A", Where: []Cond{}}})
+		if !ob2.Committed {
+			known["31"] = 1
+		}
+	}
+	return emit.PatchStats(o.out, "C04", func(extra map[string]interface{}) { extra["oracle_known"] = known })
 }
 
 // c04Txn: transactions that move, add and remove references to *existing*
